@@ -266,7 +266,14 @@ func c19RestoreCheck(w *wworld.World, wi int, tag string) {
 				err = fmt.Errorf("panic: %v", r)
 			}
 		}()
-		_, err = wallet.Restore(dir, ww.Mnemonic, urls)
+		// the backup is what the wallet itself shows its user, not the harness' copy of the words
+		backup := ww.Mnemonic
+		if ww.W != nil {
+			if m := ww.W.Mnemonic(); m != "" {
+				backup = m
+			}
+		}
+		_, err = wallet.Restore(dir, backup, urls)
 	}()
 	w.R.Cur = prev
 	if err != nil {
@@ -356,6 +363,10 @@ func c19OwnSpecs(quick bool) []*wSpec {
 			{Prop: "C19", Name: "C19-crossmint-p2pk-q", Cfg: crossMintCfg, Init: []string{"mint|2|16", "mint|0|8"}, Menu: crossMintP2PKMenu, Probe: c19Probe(false), Depth: 3, NoInvariants: true},
 			// ... the same with a mint the wallet already trusts (it has received a plain token from it)
 			{Prop: "C19", Name: "C19-crossmint-trusted-q", Cfg: crossMintCfg, Init: []string{"mint|2|16", "mint|0|8", "sendpk|2|0|2", "recv|0|0|0"}, Menu: crossMintP2PKMenu, Probe: c19Probe(false), Depth: 2, NoInvariants: true},
+			// a wallet created by restoring from a differently spelled (extra blanks) mnemonic, used, backed up, restored
+			{Prop: "C19", Name: "C19-respelled-mnemonic-q", Cfg: two, Init: []string{"mint|0|16", "restorews|0", "mint|0|8"}, Menu: func(w *wworld.World) []string {
+				return []string{"send|0|3|0", "mint|0|4", "restore|0"}
+			}, Probe: c19Probe(false), Depth: 1, NoInvariants: true},
 			{Prop: "C19", Name: "C19-over300-q", Cfg: two, Init: c19Over300(), Menu: func(*wworld.World) []string { return nil }, Probe: c19Probe(false), Depth: 0, NoInvariants: true},
 			{Prop: "C19", Name: "C19-long-q", Cfg: two, Init: c19LongN(11), Menu: func(*wworld.World) []string { return nil }, Probe: c19Probe(false), Depth: 0, NoInvariants: true},
 		}
@@ -379,6 +390,9 @@ func c19OwnSpecs(quick bool) []*wSpec {
 			return nil
 		}, Probe: c19Probe(false), Depth: 4, NoInvariants: true},
 		{Prop: "C19", Name: "C19-crossmint-p2pk", Cfg: crossMintCfg, Init: []string{"mint|2|16", "mint|0|8"}, Menu: crossMintP2PKMenu, Probe: c19Probe(true), Depth: 4, NoInvariants: true},
+		{Prop: "C19", Name: "C19-respelled-mnemonic", Cfg: two, Init: []string{"mint|0|16", "restorews|0", "mint|0|8"}, Menu: func(w *wworld.World) []string {
+			return []string{"send|0|3|0", "mint|0|4", "restore|0", "melt|0|4|P"}
+		}, Probe: c19Probe(false), Depth: 3, NoInvariants: true},
 		{Prop: "C19", Name: "C19-over300", Cfg: two, Init: c19Over300(), Menu: func(w *wworld.World) []string {
 			if w.Wallets[0].Gen < 4 {
 				return []string{"restore|0", "mint|0|7", "rotate|a|100"}
